@@ -69,13 +69,14 @@ class Location(object):
         >>> Location(StringIO("some text"), has_column=True)
         <io> (1;1)
         """
-        assert file_path
-        if isinstance(file_path, str):
+        if isinstance(file_path, str) and file_path:
             self.file_path = file_path
         else:
-            try:
-                self.file_path = file_path.name
-            except AttributeError:
+            # A stream, or the name of a stream that has no usable one (``None``, a file descriptor, ...).
+            stream_name = getattr(file_path, "name", None)
+            if isinstance(stream_name, str) and stream_name:
+                self.file_path = stream_name
+            else:
                 self.file_path = "<io>"
         self._line = 0
         self._column = 0
